@@ -441,6 +441,7 @@ def run(ctx, chk):
     from . import C11
     C11.r1b_writes_unconditional(ctx, chk, "C08.pre:C11.1")      # what the model describes is what ends up in the file only if the file is written
     C11.r5_manual_entry(ctx, chk, "C08.4")      # the manual entry point hands the board and the probabilities on unchanged
+    C11.r7_board_untouched(ctx, chk, "C08.pre:C11.5b")      # ... and nothing on the way modifies the board: the three games are written from the board that was given
     _canary(ctx, chk)
     chk.require_instances("C08.1", 3)
     chk.require_instances("C08.2", 20)
